@@ -12,18 +12,30 @@ META = dict(
     technique="symbolic execution of numbertheory.py (instrumented real source) in bit-vector "
               "arithmetic against a sieve table / the defining divisibility conditions; in the "
               "Miller-Rabin zone the argument is forked over every value by the solver "
-              "(symbolic modular exponentiation with a symbolic modulus does not bit-blast)",
+              "(symbolic modular exponentiation with a symbolic modulus does not bit-blast); "
+              "above that, up to 2^64, the Miller-Rabin base schedule of the real is_prime is "
+              "decided in linear integer arithmetic with pow() abstracted to arbitrary residues",
     bounds=dict(quick="is_prime: all n in (-8, 1230) symbolically (table and small-n paths), n in "
-                      "[1230, 2048) by forking over every value; next_prime: n in (-8, 1180); "
+                      "[1230, 2048) by forking over every value; Miller-Rabin schedule (pow abstracted): "
+                      "every n in [2^11, 2^64) coprime to 2310, bit length and 2-adic valuation of "
+                      "n-1 forked, veto of each of the first 12 primes for n >= psi_i, all-pass => True; next_prime: n in (-8, 1180); "
                       "factorization: n in (-4, 1024) and, with the small-prime table cut to "
                       "4 entries to reach the leftover branch, n < 400; gcd / lcm: 1..3 arguments "
                       "(one symbolic in [1, 63] at any position, the others forked over [1, 8]), "
                       "spread or as one list/tuple",
-                thorough="is_prime to 2^12 (Miller-Rabin zone forked); everything else as in the quick tier"),
+                thorough="is_prime to 2^12 (Miller-Rabin zone forked); schedule jobs also with the "
+                         "sequence meeting 1 before n-1 (veto1); everything else as in the quick tier"),
     stubs=["math.gcd(a, b) with two symbolic arguments: any g >= 0 with g | a, g | b and g = u*a + "
            "v*b (Bezout); with one concrete argument: its largest divisor dividing the other",
-           "math.log(n, 2): any real within one of bit_length(n)"],
-    outside=["is_prime for 2^11 <= n < 2^64 - including every strong pseudoprime to several bases "
+           "math.log(n, 2): any real within one of bit_length(n)",
+           "schedule jobs only: pow(a, e, n) returns arbitrary residues (fresh symbols constrained "
+           "per obligation); math.log(n, 2) = bit_length(n) - 1; gcd(n, 2310) = 1 under the "
+           "assumption that n is coprime to 2310"],
+    outside=["schedule jobs rest on the published bound psi_12 > 2^64 (Sorenson & Webster 2015) "
+             "and do not check the arithmetic of the Miller-Rabin sequence above 2^12; an "
+             "implementation using a different deterministic base set is reported as a "
+             "non-reproducing counterexample (harness error), not as a violation",
+             "the arithmetic of is_prime for 2^12 <= n < 2^64 - including every strong pseudoprime to several bases "
              "(the smallest to bases 2 and 3, 1 373 653, is far outside) - and 'never rejects a "
              "prime of any size': 40-base Miller-Rabin with a symbolic modulus is beyond "
              "bit-blasting; this is the largest gap between the property's quantifier and what "
@@ -81,6 +93,85 @@ def is_prime_forked(lo, hi):
         H.prove(bool(r) == SIEVE[n], "is_prime(n) agrees with the sieve")
 
     return H.run(h, "harness.c16", "isprime", funcs=FUNCS, modules=MODS, bv=24, timeout_ms=60000)
+
+
+# smallest strong pseudoprime to the first k primes, k = 1..11 (Jaeschke 1993; Jiang & Deng
+# 2014; Sorenson & Webster 2015: psi_12 = 318665857834031151167461 > 2^64)
+PSI = [2047, 1373653, 25326001, 3215031751, 2152302898747, 3474749660383, 341550071728321,
+       341550071728321, 3825123056546413051, 3825123056546413051, 3825123056546413051]
+KNOWN_PRIMES = [2053, 1000003, 2147483647, 4294967311, 2305843009213693951,
+                18446744073709551557]
+FIRST12 = [2, 3, 5, 7, 11, 13, 17, 19, 23, 29, 31, 37]
+
+
+def mr_schedule_job(i, mode, bl, bh):
+    """Miller-Rabin schedule with the modular exponentiation abstracted: n symbolic over
+    [2^11, 2^64), pow(a, e, n) a stub returning arbitrary residues.  veto: when the i-th of
+    the first 12 primes is a witness (its sequence never meets 1 or n-1) and the earlier
+    ones are liars, is_prime(n) is False.  pass: when every sequence starts at 1 (or n-1)
+    is_prime(n) is True.  With psi_12 > 2^64 the first gives 'no composite below 2^64 is
+    accepted', the second 'no prime is rejected' for the schedule; the arithmetic of the
+    sequence itself is what the forked jobs below 2^12 execute."""
+    nt = _nt()
+
+    def h():
+        b = bl + ctx().nondet(bh - bl + 1, "bit length of n")
+        sx = 1 + ctx().nondet(b - 2, "2-adic valuation of n - 1")
+        q = sym_int("q", 0, 1 << 64)
+        n = (2 * q + 1) * (1 << sx) + 1
+        lo = max(1 << (b - 1), PSI[i - 1] if (i and mode.startswith("veto")) else 2048)
+        if lo >= (1 << b):
+            raise core.PathAbort()
+        core.assume(sand(n >= lo, n < (1 << b), *[n % pr != 0 for pr in (3, 5, 7, 11)]))
+        H.inp("n", n); H.inp("base_index", i); H.inp("mode", mode)
+
+        class _M(object):
+            @staticmethod
+            def log(x, base):
+                return float(b - 1)
+        old_m, old_g = nt.math, nt.gcd
+        nt.math, nt.gcd = _M, (lambda *a: 1)
+        cnt = [0]
+
+        def fresh_residue(m, not_one):
+            cnt[0] += 1
+            y = sym_int("y%d" % cnt[0], 0, (1 << 64) - 1)
+            core.assume(sand(y < m, y != m - 1))
+            if not_one:
+                core.assume(y != 1)
+            return y
+
+        def stub(a, e, m):
+            if isinstance(e, int):          # squaring step of the current base
+                if mode == "veto1":         # the sequence meets 1 without passing n-1
+                    return 1
+                return fresh_residue(m, True)
+            if mode == "pass1":
+                return 1
+            if mode == "passm1":
+                return m - 1
+            if isinstance(a, int) and a in FIRST12 and FIRST12.index(a) == i:
+                return fresh_residue(m, True)
+            return m - 1
+
+        old = nt.__dict__.get("pow")
+        nt.pow = stub
+        try:
+            r = nt.is_prime(n)
+        finally:
+            nt.math, nt.gcd = old_m, old_g
+            if old is None:
+                del nt.pow
+            else:
+                nt.pow = old
+        reach("accepted" if r else "rejected")
+        if mode.startswith("veto"):
+            H.prove(snot(r) if isinstance(r, SBool) else (not r),
+                    "a witness among the first 12 primes makes is_prime(n) False (n < 2^64)")
+        else:
+            H.prove(r, "is_prime(n) is True when every base passes")
+
+    return H.run(h, "harness.c16", "mrsched", funcs=FUNCS, modules=MODS, bv=0, timeout_ms=60000)
 
 
 def next_prime_job(lo, hi):
@@ -184,6 +275,16 @@ def jobs(tier, seed):
         js.append(Job("isprime/sym/%d" % lo, "harness.c16:is_prime_sym", lo=lo, hi=min(lo + 99, 1229)))
     for lo in range(1230, top, 64):
         js.append(Job("isprime/mr/%d" % lo, "harness.c16:is_prime_forked", lo=lo, hi=min(lo + 63, top - 1)))
+    for i in range(12):
+        for mode in (("veto",) if tier == "quick" else ("veto", "veto1")):
+            b0 = max(12, PSI[i - 1].bit_length()) if i else 12
+            for bl in range(b0, 65, 9):
+                js.append(Job("isprime/sched/%s/%d/%d" % (mode, i, bl), "harness.c16:mr_schedule_job",
+                              i=i, mode=mode, bl=bl, bh=min(bl + 8, 64)))
+    for mode in ("pass1", "passm1"):
+        for bl in range(12, 65, 9):
+            js.append(Job("isprime/sched/%s/%d" % (mode, bl), "harness.c16:mr_schedule_job",
+                          i=0, mode=mode, bl=bl, bh=min(bl + 8, 64)))
     for lo in range(-7, 1180, 100):
         js.append(Job("nextprime/%d" % lo, "harness.c16:next_prime_job", lo=lo, hi=min(lo + 99, 1179)))
     for lo in range(-3, 1024, 64):
@@ -202,6 +303,22 @@ def replay_isprime(inp):
     got = nt.is_prime(n)
     want = n >= 2 and SIEVE[n]
     return bool(got) != want, "is_prime(%d) = %r" % (n, got)
+
+
+def replay_mrsched(inp):
+    """the abstract counterexample names a base without veto (or a rejected all-pass run);
+    it is confirmed on the real code with the published strong pseudoprimes / known primes"""
+    from ecdsa import numbertheory as nt
+    if inp["mode"].startswith("veto"):
+        for v in sorted(set(PSI)) + [inp["n"]]:
+            comp = v in PSI or any(v % q == 0 for q in range(2, 1 << 16) if q < v)
+            if comp and nt.is_prime(v):
+                return True, "is_prime(%d) = True for a composite" % v
+        return False, "no listed strong pseudoprime is accepted"
+    for v in KNOWN_PRIMES:
+        if not nt.is_prime(v):
+            return True, "is_prime(%d) = False for a prime" % v
+    return False, "no listed prime is rejected"
 
 
 def replay_nextprime(inp):
